@@ -94,6 +94,32 @@ def evaluate(e):
     return None
 
 
+def evaluate_history(group):
+    """All accepted invocations of one macro definition assembled in one program, in two orders: which variant an invocation gets
+    must not depend on earlier invocations. Only macros without address-relative steps (their bytes do not depend on the address)."""
+    from harness.render import parse_listing
+    acc = [e for e in group if e['ok'] and e['m']['inv'] != 'fwd' and not any(f[0] in ('br', 'bre') for f in e['fill'])]
+    if len(acc) < 2:
+        return None
+    isa = macro_isa(acc[0]['m'])
+    for order in (acc, list(reversed(acc))):
+        src = 'back:\n' + ''.join(INVTXT[e['m']['inv']] + '\n' for e in order)
+        case = {'config': isa, 'files': {'main.asm': src}, 'pretty': 'listing'}
+        obs = runner.run_case(case)
+        if obs['status'] != 'ok':
+            return {'m': f'program of individually accepted invocations is rejected: {(obs.get("msg") or "")[:140]}', 'case': case}
+        rows = [r for r in parse_listing(obs['pretty']) if r['line'] >= 2]
+        if len(rows) != len(order):
+            return {'m': f'listing has {len(rows)} rows for {len(order)} invocations', 'case': case}
+        for e, row in zip(order, rows):
+            want = list(e['bytes'])
+            if e['m']['inv'] == 'back':
+                continue
+            if row['bytes'] != want:
+                return {'m': f'invocation "{row["instr"]}" after other invocations assembles to {bytes(row["bytes"]).hex()}, alone to {bytes(want).hex()}', 'case': case}
+    return None
+
+
 def run(chk):
     quick = chk.tier == 'quick'
     chk.rule = ('spec/Macro.tla: TLC enumerates macro definitions (first variant: operand pattern in {numeric, register, indirect '
@@ -122,6 +148,15 @@ def run(chk):
         if r is not None:
             chk.violation(f'{r["m"]} | macro {e["m"]}', r['case'], {'ok': e['ok'], 'bytes': e['bytes'], 'size': e['size']}, r['m'],
                           {'kind': 'macro'})
+    groups = {}
+    for e in emits:
+        groups.setdefault(str((e['m']['p1'], e['m']['steps'], e['m']['v2'])), []).append(e)
+    glist = [g for g in groups.values() if len([e for e in g if e['ok']]) >= 2]
+    for g, r in zip(glist, runner.pmap(evaluate_history, glist)):
+        chk.traces += 2
+        if r is not None:
+            chk.violation(f'{r["m"]} | macro {g[0]["m"]}', r['case'], None, r['m'], {'kind': 'macro-history'})
+    chk.notes['macro_definitions_with_several_invocations'] = len(glist)
     ok = [e for e in emits if e['ok'] and len(e['m']['steps']) >= 2]
     if ok:
         chk.sample({'macro': ok[len(ok) // 2]['m'], 'bytes': ok[len(ok) // 2]['bytes'], 'size': ok[len(ok) // 2]['size']})
